@@ -34,6 +34,7 @@ Ops == {
   O("ttp_to_utc", "TTP", "-", "TTP"), O("ttp_props", "TTP", "-", "-"), O("ttp_cmp", "TTP", "TTP", "-"),
   \* constructors that take existing values as arguments (the new value may hold them, it must not change them)
   O("rec_new_sd", "TP", "Dur", "Rec"), O("rec_new_de", "TP", "Dur", "Rec"), O("rec_new_se", "TP", "TP", "Rec"), O("rec_new_win", "TP", "TP", "Rec"),
+  O("tp_zone_offset", "TP", "TP", "Zone"),
   O("rec_eq", "Rec", "Rec", "-"), O("rec_hash", "Rec", "-", "-"), O("rec_str", "Rec", "-", "-"), O("rec_anchors", "Rec", "-", "TP")}
 
 Pool0 == <<"TP", "TP", "Dur", "Dur", "Zone", "Rec", "Rec", "TTP", "Zone">>
